@@ -1,5 +1,91 @@
-import ChumskyModel.Model.Spec
+/-
+  C17 — labels and map_err change how a failure is described, never whether or where.
+
+  `G.eraseDeco` replaces every `labelled(l)` / `labelled(l).as_context()` / `map_err(f)` node by the identity wrapper
+  `.boxed` (which keeps the model's fuel aligned). Lemmas: Proofs/Lemmas/DescSim.lean.
+-/
+import ChumskyModel.Proofs.Lemmas.DescSim
+set_option linter.unusedSimpArgs false
 namespace Chumsky
-theorem placeholder_C17 : True := trivial
-#print axioms placeholder_C17
+
+/-- **C17 (class of the property: no recovery strategy under a decoration).** Adding `labelled`, `as_context` or a
+    span-preserving `map_err` anywhere never changes acceptance, the output, the final position/inspector/context,
+    the number of errors, or any error span (secondary and primary): the decorated and the undecorated parse are
+    equal up to the *descriptions* of the errors. -/
+theorem c17_erasure (n : Nat) (env : Env) (hm : env.memoOn = false) (hek : env.ek ≠ .empty) (dr : Bool)
+    (hd : DecoSafeDefs dr env) (m : Mode) (g : G) (hg : g.decoSafe dr = true) :
+    TopSim (parseTop n env m g) (parseTop n { env with defs := env.defs.map G.eraseDeco } m g.eraseDeco) :=
+  parseTop_decoSim n env hm hek dr hd m g hg
+
+/-- the same at the level of runs, from related states (so it composes under any context) -/
+theorem c17_erasure_run (n : Nat) (env : Env) (hm : env.memoOn = false) (hek : env.ek ≠ .empty) (dr : Bool)
+    (hd : DecoSafeDefs dr env) (m : Mode) (g : G) (hg : g.decoSafe dr = true) (st1 st2 : St) (hs : StSim st1 st2) :
+    OutSim (run n env m g st1) (run n { env with defs := env.defs.map G.eraseDeco } m g.eraseDeco st2) :=
+  run_decoSim n env hm hek dr hd m g hg st1 st2 hs
+
+/-- **every grammar** (recovery under decorations included): decorations never change whether a parse fails, the
+    output, the cursor, the inspector, the context, or the number of errors -/
+theorem c17_erasure_any_grammar (n : Nat) (env : Env) (hm : env.memoOn = false) (hek : env.ek ≠ .empty) (m : Mode) (g : G) :
+    TopSimW (parseTop n env m g) (parseTop n { env with defs := env.defs.map G.eraseDeco } m g.eraseDeco) :=
+  parseTop_decoSim_weak n env hm hek m g
+
+/-- the label clause, at the decorated node (machine level): when the labelled parser's pending error sits at the
+    parser's very first token the error lists the label in place of its own expectations … -/
+theorem c17_label_at_start (env : Env) (e : Err) (l : Nat) (exp : List Pat) (fo : Option Nat)
+    (hek : env.ek = .rich) (he : e.reason = .ef exp fo) :
+    (env.ek.labelWith e l).reason = .ef [.label l] fo ∧ (env.ek.labelWith e l).span = e.span := by
+  simp [ErrKind.labelWith, hek, he]
+
+/-- … when it sits further in, the inner expectations are kept and `as_context` adds (label, span from the labelled
+    parser's start to the failure) — once -/
+theorem c17_context_added (env : Env) (e : Err) (l : Nat) (sp : Nat × Nat) (hek : env.ek = .rich)
+    (hfresh : e.ctx.all (fun c => c.1 != .label l) = true) :
+    (env.ek.inContext e l sp).reason = e.reason ∧ (env.ek.inContext e l sp).span = e.span ∧
+      (env.ek.inContext e l sp).ctx = e.ctx ++ [(.label l, sp)] := by
+  simp [ErrKind.inContext, hek, hfresh]
+
+theorem c17_context_once (env : Env) (e : Err) (l : Nat) (sp : Nat × Nat) (hek : env.ek = .rich)
+    (hdup : e.ctx.all (fun c => c.1 != .label l) = false) : env.ek.inContext e l sp = e := by
+  simp [ErrKind.inContext, hek, hdup]
+
+/-- `map_err`'s function is applied to exactly the error produced by a failure of its parser (what is pending when
+    the inner run, started from an empty pending error, fails), and to nothing when it succeeds -/
+theorem c17_map_err_on_failure (n : Nat) (env : Env) (m : Mode) (k : Nat) (a : G) (st st1 : St) (e : Loc)
+    (ha : run n env m a { st with alt := none } = .fail st1) (he : st1.alt = some e) :
+    run (n + 1) env m (.mapErr k a) st =
+      .fail (St.readdAlt env { st1 with alt := st.alt } (some ⟨e.pos, env.ek.labelWith e.err k⟩)) := by
+  simp only [run, step, ha, he]
+
+theorem c17_map_err_on_success (n : Nat) (env : Env) (m : Mode) (k : Nat) (a : G) (st st1 : St) (v : Val)
+    (ha : run n env m a { st with alt := none } = .ok v st1) :
+    run (n + 1) env m (.mapErr k a) st = .ok v (St.readdAlt env { st1 with alt := st.alt } st1.alt) := by
+  simp only [run, step, ha]
+
+/-- **observation outside the property's class** (recorded in DESIGN.md): a label over `recover_with` does change
+    which error the recovery reports (the decorated run shelters the pending error, so the strategy's
+    `take_alt()` sees only the inner failure) — kernel-checked witnesses -/
+theorem c17_label_over_recovery_witness :
+    (parseTop 10 decoCexEnv .emit (decoCexG (.then_ .any .any))).spans = some (true, [(0, 1)]) ∧
+    (parseTop 10 { decoCexEnv with defs := decoCexEnv.defs.map G.eraseDeco } .emit
+      (decoCexG (.then_ .any .any)).eraseDeco).spans = some (true, [(1, 2)]) :=
+  decoCex_secondary
+
+/-- non-vacuity: a labelled, context-giving grammar of the class on a rejected input -/
+example :
+    let g : G := .then_ (.just [97]) (.labelled 2 true (.then_ (.just [98]) (.mapErr 3 (.just [99]))))
+    g.decoSafe false = true ∧
+    (match parseTop 12 { toks := [97, 98, 120], memoOn := false } .emit g with
+      | .result r _ => (r.output, r.errs)
+      | _ => (none, [])) = (none, [⟨(2, 3), .ef [.label 3] (some 120), [(.label 2, (1, 2))]⟩]) := by
+  decide +kernel
+
+#print axioms c17_erasure
+#print axioms c17_erasure_run
+#print axioms c17_erasure_any_grammar
+#print axioms c17_label_at_start
+#print axioms c17_context_added
+#print axioms c17_context_once
+#print axioms c17_map_err_on_failure
+#print axioms c17_map_err_on_success
+#print axioms c17_label_over_recovery_witness
 end Chumsky
